@@ -27,6 +27,7 @@
 #include "place_detailed/detailed_placement.hpp"
 #undef private
 #include "detailed_common.hpp"
+#include "c02_exhaustive.hpp"
 
 using namespace coloquinte;
 
@@ -114,8 +115,8 @@ struct E2E {
       out.ops << "case " << id << "\n";
       out.impl << "case " << id << "\n";
       vc::dumpCircuit(out.ops, start);
-      out.ops << "init\n";
-      out.impl << "init ok\n";
+      out.ops << "init\ninv\n";
+      out.impl << "init ok\ninv true\n";
       size_t cbIdx = 0;
       for (const std::string &l : r.oplog) {
         if (l == "cb") {
@@ -125,8 +126,11 @@ struct E2E {
           }
           ++cbIdx;
         } else {
-          out.ops << l << "\n";
+          // the model replays the move (silent when accepted) and evaluates the decidable Inv on the new state
+          out.ops << l << "\ninv\n";
+          out.impl << "inv true\n";
           out.count("e2e_logged_" + l.substr(0, l.find(' ')));
+          out.count("e2e_inv_evaluated");
         }
       }
       out.ops << "export\n";
@@ -195,6 +199,8 @@ static void primitivesChild(std::ostream &os, const Circuit &input, const vd::Pa
   }
   DetailedPlacement &p = *pp;
   os << "I init ok\n";
+  os << "O inv\nI inv true\n";
+  os << "C prim_inv_evaluated\n";
   os << "O rows\n";
   os << "I rows";
   for (const Row &r : p.rows()) os << " " << r.minX << " " << r.maxX << " " << r.minY << " " << r.maxY << " " << (int)r.orientation;
@@ -273,6 +279,8 @@ static void primitivesChild(std::ostream &os, const Circuit &input, const vd::Pa
       os << "O unplace " << a << "\nI unplace ok\n";
       os << "O state\nI " << stateLine(p) << "\n";
       os << "O check\nI check " << checkResult(p) << "\n";
+      os << "O inv\nI inv true\n";  // a state with an unplaced cell still satisfies Inv
+      os << "C prim_inv_evaluated\n";
       int row = g.chance(1, 2) ? oldRow : (int)g.range(0, R - 1);
       int pred = predFor(row);
       if (!wellFormedSite(row, pred)) pred = -1;
@@ -390,6 +398,10 @@ static void primitivesChild(std::ostream &os, const Circuit &input, const vd::Pa
     }
     os << "O state\nI " << stateLine(p) << "\n";
     os << "O check\nI check " << checkResult(p) << "\n";
+    // the model's invariant (Properties/C02 `Inv`, evaluated by the driver) holds after every operation,
+    // accepted or refused
+    os << "O inv\nI inv true\n";
+    os << "C prim_inv_evaluated\n";
   }
   // export
   Circuit ex = c;
@@ -449,6 +461,33 @@ int main(int argc, char **argv) {
       "with a callback; non-trivial = detailed placement changed the placement after legalization.  p<k>: "
       "DetailedPlacement from a legalized circuit + 40 random public-API operations (swap/insert/unplace+place/"
       "shift/reorder/check probes); non-trivial = at least one mutating operation succeeded.  distinct by input text";
+  const bool exhOnly = getenv("C02_EXH_ONLY") != nullptr;  // hidden development switch: only the stream x<k>, in any tier
+  if (exhOnly || a.thorough())
+    out.rule +=
+        ".  x<k> (thorough tier only; exhaustive, no randomness; one case per initial placement): instances = family "
+        "plain: 1..4 movable cells, every width tuple in {1,2}^n, polarity ANY, on one row [-3,-3+L) L=1..6 (N) or on two "
+        "rows [-3,-3+a) y=0 (N) and [-2,-2+b) y=2 (FS) for every (a,b) in {1..6}^2 (negative and positive coordinates: "
+        "the truncating midpoint divisions see both signs); family wide: n<=3, width tuples in {1,2,3}^n containing a 3, "
+        "one row or two rows of equal length 4..6; family polar: 13 fixed sets of 1..4 cells with polarities "
+        "SAME/OPPOSITE/NW/SE/ANY on 3 row configurations (isRowAllowed and the orientation update matter); family obstr: "
+        "1..3 cells of widths {1,2} with a fixed obstruction of width 1 at x=-1 splitting row 0 of length 6 (alone or with a "
+        "second row of length 4): 3 data-structure rows and an ignored cell inside the index range.  Roots = ALL legal "
+        "placements of the labelled movable cells of every instance, each dumped, built by the real fromIspdCircuit (must "
+        "accept) and by the model (init/inv/state/check/export compared).  From every root a depth-first search to 4 moves "
+        "through the real public API: at every node canSwap for EVERY ordered pair of cell indices (a==b and ignored cells "
+        "included) and canInsert for EVERY (cell, row, pred in {-1}+cells of that row), real answer vs model; every "
+        "feasible move also gets posSwap/posInsert, is executed on a copy of the object (model: mark/reset/drop), the state "
+        "line is compared and the direct oracle runs on the real object (check() passes, every optimised cell placed, row "
+        "lists consistent with pred/row/last, cells of a row in increasing x without overlap inside the row at the row's y, "
+        "exported circuit passes vc::checkLegal, the move landed on the promised position); the first infeasible swap and "
+        "insert of every node are executed too and must throw runtime_error leaving the state unchanged.  Both sides are "
+        "functions of the printed state line (all fields are printed; rows and polarities are constants of the instance), so "
+        "the search is memoised per instance on (state line, remaining depth); in instances with more than 120 roots every "
+        "root is registered up front as expanded-with-4 (each one is), so there every node is a root and every state "
+        "reached by a move is verified to be a root (x_reached_state_that_is_not_an_initial_placement counts the others, "
+        "which are expanded); instances with at most 120 roots are searched with the plain memo (real sequences of up to 4 "
+        "moves, x_nodes_remaining_1..3).  check/inv are asked of the model the first time a move produces a given state "
+        "line in an instance.  evaluations += expanded nodes; non-trivial = instance with at least one feasible move";
   E2E e2e(out);
   Prim prim(out);
 
@@ -465,7 +504,13 @@ int main(int argc, char **argv) {
   if (!a.replay.empty()) {
     std::string text = vd::jsonField(vd::readFile(a.replay), "input");
     if (text.empty()) text = vd::readFile(a.replay);
-    runText("replay", text);
+    if (c02x::isReplayText(text)) c02x::replay(out, text);
+    else runText("replay", text);
+    out.finish();
+    return 0;
+  }
+  if (exhOnly) {
+    c02x::runAll(out);
     out.finish();
     return 0;
   }
@@ -498,6 +543,7 @@ int main(int argc, char **argv) {
     vd::Params p = vd::genParams(g, false);
     prim.run("p" + std::to_string(k), c, p, g, a.thorough() ? 60 : 40);
   }
+  if (a.thorough() && a.only < 0) c02x::runAll(out);
   out.finish();
   return 0;
 }
